@@ -15,6 +15,9 @@ fn tag_banks(core: &mut Core) {
     core.memory.rom[base] = b as u8; core.memory.rom[base + 1] = (b >> 8) as u8;
     core.memory.rom[base + 0x3ffe] = b as u8; core.memory.rom[base + 0x3fff] = (b >> 8) as u8;
   }
+  // the last byte of the fixed bank is the opcode of LD BC,nn: fetched there, its operand is the tag of whichever bank is
+  // visible at 0x4000 ("the ROM bank visible at 0x4000-0x7FFF" for instruction fetch as for data reads)
+  core.memory.rom[0x3fff] = 0x01;
   let n = core.memory.cart_ram.len();
   if n >= 0x2000 {
     for k in 0..n / 0x2000 { core.memory.cart_ram[k * 0x2000] = 0x40 | k as u8; core.memory.cart_ram[k * 0x2000 + 0x1fff] = 0x80 | k as u8; }
@@ -27,12 +30,17 @@ fn observe_banks(core: &mut Core) -> (u64, u64, bool) {
   let p = mem_ptr(core);
   let lo = memory_read_byte(p, 0x4000) as u64 | (memory_read_byte(p, 0x4001) as u64) << 8;
   let hi = memory_read_byte(p, 0x7ffe) as u64 | (memory_read_byte(p, 0x7fff) as u64) << 8;
-  let rb = if lo == hi { lo } else { 0xffff_0000 | lo };
+  // (the image's first 16 KiB ends in that opcode instead of the high byte of its tag)
+  let hi = if hi == 0x0100 { 0 } else { hi };
+  core.registers.ip = 0x3fff;
+  let _ = crate::interpreter::run_next_op(&mut core.registers, p);
+  let fetched = (core.registers.bc & 0xffff) as u64;
+  let rb = if lo != hi { 0xffff_0000 | lo } else if fetched != lo { 0xfe7c_0000 | fetched } else { lo };
   let n = core.memory.cart_ram.len();
   let a = memory_read_byte(p, 0xa000) as u64; let b = memory_read_byte(p, 0xbfff) as u64;
   let mb = if n == 0 { if a == 0xff && b == 0xff { 0 } else { 0xee00 | a } }
            else if a & 0xc0 == 0x40 && b & 0xc0 == 0x80 && (a & 0x3f) == (b & 0x3f) { a & 0x3f } else { 0xdd0000 | a << 8 | b };
-  let bank0 = memory_read_byte(p, 0x0000) == 0 && memory_read_byte(p, 0x0001) == 0 && memory_read_byte(p, 0x3ffe) == 0 && memory_read_byte(p, 0x3fff) == 0;
+  let bank0 = memory_read_byte(p, 0x0000) == 0 && memory_read_byte(p, 0x0001) == 0 && memory_read_byte(p, 0x3ffe) == 0 && memory_read_byte(p, 0x3fff) == 0x01;
   (rb, mb, bank0)
 }
 
@@ -142,6 +150,22 @@ pub fn crash(args: &[String]) {
     for a in [0x0000u16, 0x1fff, 0x2000, 0x3fff, 0x4000, 0x5fff, 0x6000, 0x7fff].iter() {
       for v in [0u8, 0xff, 0x0a].iter() { memory_write_byte(p, *a, *v); memory_write_word(p, *a, 0xffff); n += 2;
         let _ = memory_read_byte(p, 0x4000); let _ = memory_read_byte(p, 0x7fff); let _ = memory_read_byte(p, 0xa000); let _ = memory_read_byte(p, 0xbfff); n += 4; }
+    }
+    // every register of the I/O page written with a few values (assigned or not: what an unassigned register does with a
+    // write is the emulator's business, but whatever it selects must not take a later access out of bounds), each time
+    // followed by accesses at the region boundaries
+    let touch: [u16; 19] = [0x0000, 0x3fff, 0x4000, 0x7fff, 0x8000, 0x9fff, 0xa000, 0xbfff, 0xc000, 0xcfff, 0xd000, 0xdfff, 0xe000,
+                            0xfe00, 0xfe9f, 0xff80, 0xfffe, 0xffff, 0xff0f];
+    for r in 0xff00u16..0xff80 {
+      for v in [0u8, 1, 2, 7, 0x0a, 0x7f, 0xff].iter() {
+        if r == 0xff02 && *v >= 0x80 { continue; }          // (a transfer would print into the report)
+        memory_write_byte(p, r, *v); n += 1;
+        for a in touch.iter() {
+          let x = memory_read_byte(p, *a); let _ = memory_read_word(p, *a); n += 2;
+          if *a >= 0x8000 { memory_write_byte(p, *a, x); n += 1; }
+        }
+      }
+      memory_write_byte(p, r, 0);
     }
     let _ = std::fs::remove_file(&path);
     let line = json!({"kind": "config", "t": t, "rc": rc, "mc": mc, "accesses": n});
